@@ -20,6 +20,10 @@ CLAIMED = {
   text="One inductive step, decided by bounded symbolic execution of the real RecordRequest/RecordResponse/Export/ExportAndReset/Reset from SSA: from an arbitrary log state satisfying the representation invariant (n retained entries, symbolic ids constrained only to be distinct, symbolic completion bits) and an operation with a symbolic id argument (z3 decides whether it aliases an existing id), the invariant holds again and the result equals a slice model. Because the step holds from every valid state, histories of any length follow for logs of up to n simultaneously retained entries; a second harness runs all operation sequences of bounded length from the empty log end to end. A lockset monitor in the engine requires l.mu to be held at every access to entries, tail, Entry.next and Entry.Response inside the five operations, which is the argument for the concurrent clause.",
   note="Bounds: n<=4 entries quick / 6 thorough, ids of 2 symbolic bytes; sequences of 4 quick / 6 thorough operations over 3 ids. har.NewRequest/NewResponse are summarised (C16's subject). Concurrency is covered by the lock-discipline argument (every access under the one mutex), not by enumerating interleavings. Trusted: go/ssa, symgo, z3.",
   ref="DESIGN.md section 6, C17"),
+ "C09": dict(
+  text="Bounded symbolic execution of the real relay flow-control code (updateInitialWindowSize, updateWindow, data, emitEligibleFrames, sendWindowUpdates, queued frames, with the real x/net http2.Framer on both sides, all from SSA) over symbolic histories: SETTINGS initial window values and WINDOW_UPDATE increments are symbolic 31-bit integers, so z3 decides every relation between window and frame size. A ledger oracle in the harness asserts: bytes delivered never exceed the receiver's credit per stream and connection, credit returned to the sender equals the flow-controlled length (payload+padding+pad octet) of every accepted DATA frame, no frame exceeds the symbolic SETTINGS_MAX_FRAME_SIZE, and no queue head that fits both windows is left stranded.",
+  note="Bounds: histories of 3 (quick) / 4 (thorough) events over 2 streams, DATA payload 0..3 bytes, pad length 0 or 2; max-frame scenario: one 16386-byte payload, m symbolic in [16384, 2^24). Sequential schedule (the harness drains the output queue after each frame; the reader/writer goroutines are C10's subject). Lenient reading: the relay is not required to split a frame to fit a smaller window. Trusted: go/ssa, symgo, z3; x/net http2 framing is executed, not stubbed.",
+  ref="DESIGN.md section 6, C09"),
 }
 
 NOT_YET = "check not built yet in this round; planned with the same technique (DESIGN.md section 6)"
